@@ -68,4 +68,19 @@ def patchWithinPattern (r : Rule) : Bool :=
   (r.atomFix.all fun nc => r.atoms.any (·.n == nc.1)) &&
   r.bondFix.all fun b => r.bonds.any fun pb => (pb.n == b.1 && pb.m == b.2.1) || (pb.n == b.2.1 && pb.m == b.1)
 
+/-- shape of a "freak" pattern (`aromatics._rules.freak_rules`): a five-membered ring 1-2-3-4-5 of atoms that all demand
+    ring size 5; atom 1 is the lone-pair atom with single bonds only (`z1`), bonded singly to 2 and 5; the bond 2–3 must
+    accept **both** a double and an aromatic bond (it may belong to a ring that is still localised or to one that has
+    already been aromatised); 3–4 is single; 4–5 is the aromatic bond shared with the ring aromatised before. -/
+def freakShapeOk (r : Rule) : Bool :=
+  let ord (a b : Nat) : Option (List Nat) :=
+    (r.bonds.find? fun pb => (pb.n == a && pb.m == b) || (pb.n == b && pb.m == a)).map (·.orders)
+  r.atoms.map (·.n) == [1, 2, 3, 4, 5] && r.bonds.length == 5 &&
+  r.atoms.all (fun a => a.ringSizes == [5]) &&
+  (r.atoms.find? (·.n == 1)).map (·.hybridization) == some [1] &&
+  ord 1 2 == some [1] && ord 1 5 == some [1] && ord 3 4 == some [1] && ord 4 5 == some [4] &&
+  (match ord 2 3 with
+   | some os => os.contains 2 && os.contains 4 && os.all fun o => o == 2 || o == 4
+   | none => false)
+
 end ChythonModel.Model.C05
